@@ -351,4 +351,59 @@ theorem run_once (g : G) (sched : List Tid) (h : OnceInv g.sh) :
     have h2 := ih (step g t) h1.1
     exact ⟨h2.1, Nat.le_trans h1.2 h2.2⟩
 
+/-! ### Initial states -/
+
+theorem initial_init (post : Bool) (late : List Nat) (setters : List (List Nat)) (n : Nat)
+    (h : settersOk setters = true) : Initial (init post late setters n) := by
+  refine ⟨rfl, by simp [init, stStopping], rfl, rfl, ⟨rfl, rfl⟩, ?_, ?_⟩
+  · intro w hw
+    simp only [init, List.mem_replicate] at hw
+    exact hw.2
+  · simp only [settersBelowStopping, init, List.all_map]
+    simp only [settersOk] at h
+    rw [List.all_eq_true] at h ⊢
+    intro l hl
+    simp [Function.comp, h l hl]
+
+theorem inv_initial (g : G) (h : Initial g) : Inv g := by
+  obtain ⟨h1, h2, h3, h4, ⟨h5, h6⟩, h7, h8⟩ := h
+  refine ⟨by simp [h1, EPc.valid], ?_, ?_, h8⟩
+  · rw [h1]
+    constructor <;> simp_all [EPc.stage, stStopping, stStopped] <;> omega
+  · intro w hw
+    rw [h7 w hw, h1]
+    constructor <;> simp [EPc.stage, Waiter.parked]
+
+theorem hasPostStop_run (g : G) (l : List Tid) : (run g l).exiter.hasPostStop = g.exiter.hasPostStop := by
+  induction l generalizing g with
+  | nil => rfl
+  | cons t l ih =>
+    simp only [run, List.foldl_cons] at ih ⊢
+    rw [ih]
+    cases t with
+    | e =>
+      obtain ⟨sh, ex, st, ws⟩ := g
+      obtain ⟨pc, p, lc⟩ := ex
+      simp only [step]
+      cases pc <;> simp only [stepExiter] <;>
+        first
+        | rfl
+        | (rename_i c; generalize stepSet sh ws c = r; obtain ⟨a, b, c'⟩ := r; cases c' <;> rfl)
+        | (rename_i c rest; generalize stepSet sh ws c = r; obtain ⟨a, b, c'⟩ := r; cases c' <;> rfl)
+    | s k => simp only [step]; split <;> rfl
+    | w k => simp only [step]; split <;> rfl
+    | abandon k =>
+      simp only [step]
+      split
+      · rfl
+      · split
+        · rfl
+        · rfl
+        · split <;> rfl
+
+theorem length_run (g : G) (l : List Tid) : (run g l).waiters.length = g.waiters.length := by
+  induction l generalizing g with
+  | nil => rfl
+  | cons t l ih => simp only [run, List.foldl_cons] at ih ⊢; rw [ih, length_step]
+
 end ExitRace
